@@ -4,6 +4,11 @@ import json, os
 V = os.path.dirname(os.path.dirname(os.path.abspath(__file__)))
 ALL = ["C%02d" % i for i in range(1, 21)]
 CHECKS = {
+ "C16": dict(
+   text="The verdict of PARSENUM / PARSENUM_EX is a TLA+ definition (specs/text/Parsenum.tla over BigNat.tla: grammar per base, exact natural-number value, in-bounds-and-in-type test, EINVAL / ERANGE); floats (ParsenumFloat.tla: the numeral as an exact rational, result within half a unit in the last place) and sizes (Humansize.tla: language and truncating 2-3 digit format) likewise. TLC enumerates the complete structured numeral space (white space x sign x base prefix x digit class at the type limits and at the requested bounds +/- 1 x trailing junk x trailing flag x base x bounds shape x target type); every point is concretised and parsed by every applicable macro form with intmax_t and uintmax_t bounds, together with float/double numerals, sizes at every power of 1000 +/- 1 and the token-pair language of humansize_parse; TLC validates every call's verdict and value against the specification.",
+   note="Bounds for signed targets lie inside the target type; floats in the normal range, C locale; big-integer arithmetic for floats and sizes through java.math.BigInteger (integers in pure TLA+).",
+   technique="TLA+ functional specification + exhaustive enumeration of the structured input space by TLC + trace validation of every call",
+   design="6/C16"),
  "C18": dict(
    text="The option grammar of util/getopt.h is a TLA+ step function (specs/text/Getopt.tla: one getopt() call per step). TLC enumerates every argument vector of length <= 3 over a 27-token alphabet for three option tables (with / without a missing-argument handler), checking that the grammar is well defined, and prints all of them; the real parser processes every one after an optreset that follows a different vector, plus random vectors to length 8, parses abandoned after 0..3 options and parses that are the first of a fresh process; TLC validates every getopt() call (option, argument, default / missing path) and the final operand index against the grammar.",
    note="Bounded enumeration (length <= 3 exhaustively; to 8 sampled); three compiled option tables; warnings disabled (opterr = 0).",
